@@ -103,6 +103,23 @@ def check(ctx):
                 if isinstance(it, ast.Call) and isinstance(it.func, ast.Name) and it.func.id in ("set", "frozenset"):
                     ctx.fail(fn, it, "iteration over a set: the order depends on hash randomisation", construct="iteration over set(...)")
 
+    # ------------------------------------------------------------------ R5
+    ctx.rule("R5", "no value is derived from the text rendering of a float array (numpy print options are process-global state)", floor=0)
+    INT_T = ("int", "np.int64", "np.int32", "np.uint64", "np.uint32", "np.int_", "np.intp", "np.uint8", "np.int8", "np.int16", "np.uint16")
+    for fn in prog.functions():
+        for node in ast.walk(fn.node):
+            if isinstance(node, ast.Call) and call_name(node) in ("np.array2string", "np.array_str", "np.array_repr") and node.args:
+                # ignore renderings that only go to the logger
+                par = prog.parent(node)
+                in_log = any(isinstance(p_, ast.Call) and canon(p_.func).split(".")[-1] in ("info", "debug", "warning", "warn", "error", "log") for p_ in prog.ancestors(node))
+                if in_log:
+                    continue
+                arg = node.args[0]
+                defs = reaching_assignments(prog, fn, arg.id, node) if isinstance(arg, ast.Name) else [arg]
+                integral = bool(defs) and all(isinstance(d, ast.Call) and isinstance(d.func, ast.Attribute) and d.func.attr == "astype" and d.args and canon(d.args[0]) in INT_T for d in defs)
+                ctx.check(integral, fn, node, f"{call_name(node)} of an integer-typed array (rendering independent of print options)", f"{call_name(node)}({canon(arg)}) renders a float array: the text (and everything derived from it, here a seed) depends on numpy's process-global print options, i.e. on what ran earlier in the process",
+                          construct=f"{call_name(node)} of a non-integer array")
+
     # ------------------------------------------------------------------ R2
     ctx.rule("R2", "seeding dominates every random draw in the constructor and in optimize()", floor=4)
     seedfn = R.seed_fn
